@@ -108,6 +108,10 @@ Fixpoint clookup (ct : ctable) (cs rq : N) : bool :=
 Definition validate (ct : ctable) (b : bundle) (rq : N) : bool :=
   existsb (fun t => match t with TVer _ cs => clookup ct cs rq | _ => false end) (b_ts b).
 
+(* Bundle.Validate(a1, ..., an): ONE verified token must clear all the accesses *)
+Definition validate_many (ct : ctable) (b : bundle) (rqs : list N) : bool :=
+  existsb (fun t => match t with TVer _ cs => forallb (clookup ct cs) rqs | _ => false end) (b_ts b).
+
 (* ---- attenuation: tables from direct clone+Add+String calls *)
 (* atable: (token id, caveat-list id) -> Some new id / None (Add refused) ; cs_att: (cs, caveat-list id) -> new cs *)
 Definition atable := list (N * N * option N).
